@@ -224,6 +224,8 @@ def run_gcase(case, seed=0, replay_dir=None, known=None):
                     res["obligations"].append(ob)
                     continue
                 dis, side = qdom.diff_terms(a, b)
+                if not (Q.lift(a).iszero() and Q.lift(b).iszero()):
+                    nontrivial += 1  # a compared coefficient that is not identically zero on both sides (vacuity guard)
                 if not dis:
                     ob.update(status="unsat", seconds=0.0, how="syntactic")
                     res["obligations"].append(ob)
@@ -231,8 +233,6 @@ def run_gcase(case, seed=0, replay_dir=None, known=None):
                 asserts = pre + side + [z3.Or(*dis)]
                 r = dec.decide(asserts, timeout_ms=int(case.timeout_s * 1000), seed=seed, guided_first=True, variables=allv())
                 ob.update(status=r.status, seconds=round(r.seconds, 3), how=r.how, nvars=r.nvars)
-                if not (a.iszero() and b.iszero()):
-                    nontrivial += 1
                 if len(res["samples"]) < 2:
                     s_ = dec.to_smt2(asserts)
                     res["samples"].append({"label": lab, "smt2_head": s_[:1500], "smt2_bytes": len(s_)})
